@@ -6,6 +6,7 @@ import sys
 import jsonpath
 from jsonpath.__about__ import __version__
 from jsonpath.exceptions import JSONPatchError
+from jsonpath.exceptions import JSONPathError
 from jsonpath.exceptions import JSONPathIndexError
 from jsonpath.exceptions import JSONPathSyntaxError
 from jsonpath.exceptions import JSONPathTypeError
@@ -263,6 +264,12 @@ def handle_path_command(args: argparse.Namespace) -> None:  # noqa: PLR0912
         if args.debug:
             raise
         sys.stderr.write(f"json path index error: {err}\n")
+        sys.exit(1)
+    except JSONPathError as err:
+        # For example, a name error for an unknown filter function.
+        if args.debug:
+            raise
+        sys.stderr.write(f"json path error: {err}\n")
         sys.exit(1)
 
     try:
